@@ -1,0 +1,23 @@
+//go:build !verif
+
+// Package verifhook holds seams used only by the deterministic-simulation
+// harness in /verif. With the "verif" build tag off (the default) every hook is
+// a constant no-op that the compiler removes; shipped behaviour is unchanged.
+package verifhook
+
+import (
+	"context"
+	"net"
+)
+
+// Enabled reports whether the hooks are compiled in.
+const Enabled = false
+
+// Dialer returns the dial override, or nil.
+func Dialer() func(ctx context.Context, network, addr string) (net.Conn, error) { return nil }
+
+// Listener returns the listen override, or nil.
+func Listener() func(network, addr string) (net.Listener, error) { return nil }
+
+// Ident maps the process identity used in generated session ids.
+func Ident(hostname string, pid int) (string, int) { return hostname, pid }
